@@ -976,8 +976,13 @@ def exhaustive_cases():
                     case = {'static': static, 'creators': [cr], 'order': order, 'sel': sel, 'auto': False,
                             'cont': trig == 'fails', 'runner': runner, 'nproc': 2 if runner == 'thread' else 0}
                     if runner == 'thread':
-                        case['policy'] = {'kind': 'seeded', 'seed': len(out)}
-                    out.append(case)
+                        # the same namespace under differently biased schedules of the deterministic scheduler
+                        for pol in ({'kind': 'seeded', 'seed': len(out)}, {'kind': 'fifo', 'seed': 1},
+                                    {'kind': 'lifo', 'seed': 2}, {'kind': 'main_last', 'seed': 3},
+                                    {'kind': 'main_first', 'seed': 4}):
+                            out.append(dict(copy.deepcopy(case), policy=pol))
+                    else:
+                        out.append(case)
     return out
 
 
@@ -992,7 +997,7 @@ def run(ctx, scale=1.0):
     procs = [c for c in corpus if c['runner'] == 'process']
     ex = exhaustive_cases()
     ctx.extra['exhaustive_small_scope'] = {'cases': len(ex), 'what': '3 creator styles x 4 trigger states x 6 selection '
-                                           'shapes x {serial, thread-2}'}
+                                           'shapes x {serial, thread-2 under 5 schedule policies}'}
     rng = ctx.rng
     n_rand = int((2400 if quick else 70000) * ctx.boost * scale)
     n_proc = int((6 if quick else 150) * min(ctx.boost, 2) * scale)
